@@ -35,6 +35,7 @@ type PropCfg struct {
 	AllowedGlobalWriters map[string][]string `json:"allowed_global_writers"`
 	AllowedNondet        map[string][]string `json:"allowed_nondet"`
 	AllowedGlobals       []string            `json:"allowed_globals"`
+	FieldWriters         map[string][]string `json:"field_writers"` // field.writers: struct field -> functions that may assign it
 	AllowedIDMapKeys     []string            `json:"allowed_id_map_keys"`
 }
 
